@@ -35,6 +35,14 @@ struct Case {
     specs: Vec<ColSpec>,
     cols: Vec<(String, Vec<V>)>,
     restart: bool,
+    /// Some(chunk) = the table is written to a CSV file and loaded with `load_csv` (chunk = rows per ingested chunk)
+    csv: Option<usize>,
+}
+
+impl Case {
+    fn path_name(&self) -> &'static str {
+        if self.csv.is_some() { "csv" } else { self.via.name() }
+    }
 }
 
 fn len_bucket(n: usize) -> &'static str {
@@ -206,7 +214,7 @@ fn compare(
                 if has_val && (nullpat == "none" || has_null) {
                     out.distinct(format!(
                         "{}|{}|{}|{}|{}|{}|{}|{}",
-                        kind, class, nullpat, len_bucket(case.len), case.via.name(), case.cfg_name, stage,
+                        kind, class, nullpat, len_bucket(case.len), case.path_name(), case.cfg_name, stage,
                         sigs.get(name).map(|s| s.as_str()).unwrap_or("-")
                     ));
                 }
@@ -217,7 +225,7 @@ fn compare(
 
 fn case_json(case: &Case) -> serde_json::Value {
     json!({
-        "len": case.len, "via": case.via.name(), "cfg": case.cfg.to_json(), "splits": case.splits,
+        "len": case.len, "via": case.path_name(), "cfg": case.cfg.to_json(), "splits": case.splits,
         "flush_between": case.flush_between, "restart": case.restart,
         "columns": case.specs.iter().take(40).map(|s| format!("{}:{}/{}/{}", s.name, s.kind, s.class, s.nullpat)).collect::<Vec<_>>(),
         "ncols": case.specs.len(),
@@ -229,6 +237,14 @@ fn run_case(case: Case, out: &mut CaseOut, op: &OpCell) {
     let mut model = LTable::new("t");
     let batches = build_batches(&case);
     let mut db = db;
+    let batches = if let Some(chunk) = case.csv {
+        // CSV path: the engine reads the text file itself; what it acknowledged is the whole file
+        let b = load_via_csv(&db, &case, chunk, out, op);
+        model.append(&b);
+        Vec::new()
+    } else {
+        batches
+    };
     for (i, b) in batches.iter().enumerate() {
         db.ingest(std::slice::from_ref(b), case.via);
         model.append(b);
@@ -287,9 +303,99 @@ fn run_case(case: Case, out: &mut CaseOut, op: &OpCell) {
             compare(out, &case, stage, &model, &q, "SELECT id, cols..", &want, &sigs);
         }
     }
-    out.sample(json!({"case": case.id, "len": case.len, "via": case.via.name(), "cfg": case.cfg_name, "splits": case.splits,
+    out.sample(json!({"case": case.id, "len": case.len, "via": case.path_name(), "cfg": case.cfg_name, "splits": case.splits,
         "first_columns": case.specs.iter().take(3).map(|s| json!({"name": s.name, "class": format!("{}/{}/{}", s.kind, s.class, s.nullpat),
             "values": case.cols.iter().find(|c| c.0 == s.name).map(|c| c.1.iter().take(6).map(|v| v.short()).collect::<Vec<_>>())})).collect::<Vec<_>>()}));
+}
+
+/// Text of one cell in the CSV file (None = empty field = NULL).
+fn csv_text(v: &V) -> Option<String> {
+    match v {
+        V::Null => None,
+        V::Int(i) => Some(i.to_string()),
+        V::Float(f) => Some(format!("{:?}", f)),
+        V::Str(s) => Some(s.clone()),
+    }
+}
+
+/// What a CSV cell means once it is text: a float is whatever its shortest round-trip text parses to (NaN payloads
+/// cannot be written in text), everything else is unchanged.
+fn csv_logical(v: &V) -> V {
+    match v {
+        V::Float(f) => V::Float(format!("{:?}", f).parse::<f64>().unwrap()),
+        other => other.clone(),
+    }
+}
+
+fn csv_quote(s: &str) -> String {
+    format!("\"{}\"", s.replace('"', "\"\""))
+}
+
+/// Writes the case's table as a CSV file (header row, every string field quoted, NULL = empty unquoted field) and loads
+/// it through `LocustDB::load_csv`. String columns are declared always-string, columns with NULLs are declared
+/// nullable (the documented way to get NULLs out of a CSV file). Returns the logical content as one batch.
+fn load_via_csv(db: &Db, case: &Case, chunk: usize, out: &mut CaseOut, op: &OpCell) -> Batch {
+    let dir = crate::drive::fresh_dir("c01csv");
+    let path = dir.join("t.csv");
+    let mut text = String::new();
+    text.push_str(&case.cols.iter().map(|c| csv_quote(&c.0)).collect::<Vec<_>>().join(","));
+    text.push('\n');
+    for r in 0..case.len {
+        let mut fields = Vec::with_capacity(case.cols.len());
+        for (_, vals) in &case.cols {
+            fields.push(match &vals[r] {
+                V::Str(s) => csv_quote(s),
+                v => csv_text(v).unwrap_or_default(),
+            });
+        }
+        text.push_str(&fields.join(","));
+        text.push('\n');
+    }
+    std::fs::write(&path, text.as_bytes()).expect("write csv");
+    let str_idx: Vec<usize> = case.cols.iter().enumerate().filter(|(_, c)| c.1.iter().any(|v| matches!(v, V::Str(_)))).map(|(i, _)| i).collect();
+    let null_idx: Vec<usize> = case.cols.iter().enumerate().filter(|(_, c)| c.1.iter().any(|v| v.is_null())).map(|(i, _)| i).collect();
+    let opts = locustdb::LoadOptions::new(&path, "t").with_partition_size(chunk).with_always_string(&str_idx).allow_nulls(&null_idx);
+    op.set("load_csv");
+    let r = futures::executor::block_on(db.handle().load_csv(opts));
+    op.set("");
+    if let Err(e) = r {
+        out.fail(Failure::new("ingest", "csv_load_failed", "csv", format!("load_csv returned an error: {}", e), case_json(case)));
+    }
+    out.count("csv_loads", 1);
+    out.count("csv_chunks", case.len.div_ceil(chunk.max(1)) as u64);
+    let _ = std::fs::remove_dir_all(&dir);
+    let cols: Vec<(String, ColRepr)> = case.cols.iter().map(|(n, vals)| {
+        let logical: Vec<V> = vals.iter().map(csv_logical).collect();
+        let r = ColRepr::from_logical(&logical);
+        out.set("repr_kinds", format!("csv:{}", r.kind()));
+        (n.clone(), r)
+    }).collect();
+    Batch { table: "t".into(), rows: case.len, cols }
+}
+
+/// Columns for the CSV path: the class grid, minus what a text file cannot say. An empty string in a nullable column is
+/// the CSV spelling of NULL, so those cells become "e"; a column that is NULL in every row has no type and is left out.
+fn csv_columns(len: usize, rng: &mut Rng, nullpats: &[&str]) -> (Vec<ColSpec>, Vec<(String, Vec<V>)>) {
+    let (specs, cols) = grid_columns(len, Via::Wire, rng, nullpats);
+    let mut out_specs = Vec::new();
+    let mut out_cols = Vec::new();
+    for (name, vals) in cols {
+        let has_null = vals.iter().any(|v| v.is_null());
+        if name != "id" && vals.iter().all(|v| v.is_null()) {
+            continue;
+        }
+        let vals: Vec<V> = vals.into_iter().map(|v| match v {
+            V::Str(s) if s.is_empty() && has_null => V::Str("e".into()),
+            // a lone CR or LF inside a quoted field is legal CSV but "\r\n" normalisation is reader specific: keep one form
+            V::Str(s) if s.contains('\r') => V::Str(s.replace('\r', "r")),
+            v => v,
+        }).collect();
+        if let Some(sp) = specs.iter().find(|sp| sp.name == name) {
+            out_specs.push(sp.clone());
+        }
+        out_cols.push((name, vals));
+    }
+    (out_specs, out_cols)
 }
 
 fn configs() -> Vec<(&'static str, DbCfg)> {
@@ -385,7 +491,7 @@ pub fn run(ctx: &mut Ctx) {
                 let splits = if len >= 4 && (case_no % 2 == 0) { vec![len / 3, len - len / 3] } else { vec![len] };
                 let case = Case {
                     id: id.clone(), len, via: *via, cfg, cfg_name, splits, flush_between: case_no % 4 == 0,
-                    specs, cols, restart: !ctx.quick() || case_no % 5 == 0,
+                    specs, cols, restart: !ctx.quick() || case_no % 5 == 0, csv: None,
                 };
                 let cj = case_json(&case);
                 ctx.run(&id, "ingest+select", cj, move |out, op| run_case(case, out, op));
@@ -405,11 +511,38 @@ pub fn run(ctx: &mut Ctx) {
                     let (specs, cols) = mixed_columns(len, &mut rng);
                     let case = Case {
                         id: id.clone(), len, via, cfg: cfg.clone(), cfg_name, splits: vec![len / 2, len - len / 2],
-                        flush_between, specs, cols, restart: false,
+                        flush_between, specs, cols, restart: false, csv: None,
                     };
                     let cj = case_json(&case);
                     ctx.run(&id, "ingest+select", cj, move |out, op| run_case(case, out, op));
                 }
+            }
+        }
+    }
+    // CSV load path: the same class grid through a text file, cut into chunks of several sizes by the loader
+    let csv_lengths: Vec<usize> = if ctx.quick() { vec![1, 8, 9, 65, 300] } else { vec![1, 7, 8, 9, 16, 17, 63, 64, 65, 129, 300, 1000, 2049] };
+    for &len in &csv_lengths {
+        for chunk in [1usize << 16, 64, 7] {
+            if chunk < (1 << 16) && len <= chunk {
+                continue;
+            }
+            for (ci, (cfg_name, cfg)) in configs().into_iter().enumerate() {
+                if ctx.quick() && (ci + len + chunk) % 3 != 0 {
+                    continue;
+                }
+                let id = format!("csv-l{}-chunk{}-{}", len, chunk, cfg_name);
+                if !ctx.take(&id) {
+                    continue;
+                }
+                let mut rng = Rng::derive(ctx.seed, &id, 0);
+                let (specs, cols) = csv_columns(len, &mut rng, NULL_PATTERNS);
+                let case = Case {
+                    id: id.clone(), len, via: Via::Wire, cfg, cfg_name, splits: vec![len], flush_between: false, specs, cols,
+                    restart: len % 2 == 1, csv: Some(chunk),
+                };
+                let mut cj = case_json(&case);
+                cj["csv_chunk"] = json!(chunk);
+                ctx.run(&id, "csv-load+select", cj, move |out, op| run_case(case, out, op));
             }
         }
     }
@@ -433,7 +566,7 @@ pub fn run(ctx: &mut Ctx) {
         cols.push(("dict_n".into(), gen::apply_nulls(vals, &present)));
         let case = Case {
             id: id.clone(), len, via: Via::Wire, cfg: configs()[1].1.clone(), cfg_name: "disk_lz4", splits: vec![len],
-            flush_between: false, specs, cols, restart: false,
+            flush_between: false, specs, cols, restart: false, csv: None,
         };
         let cj = case_json(&case);
         ctx.run(&id, "ingest+select", cj, move |out, op| run_case(case, out, op));
@@ -466,7 +599,7 @@ pub fn run(ctx: &mut Ctx) {
                 break;
             }
         }
-        let case = Case { id: id.clone(), len, via, cfg, cfg_name, splits, flush_between: rng.chance(0.5), specs, cols, restart: rng.chance(0.3) };
+        let case = Case { id: id.clone(), len, via, cfg, cfg_name, splits, flush_between: rng.chance(0.5), specs, cols, restart: rng.chance(0.3), csv: None };
         let cj = case_json(&case);
         ctx.run(&id, "ingest+select", cj, move |out, op| run_case(case, out, op));
     }
